@@ -30,7 +30,7 @@ REQUIRED_REACH = ['format:html', 'format:json', 'format:xml', 'format:text', 'pl
                   'accept:malformed', 'accept:exact-distinct-q', 'accept:wildcard-q', 'debug-500-parsed', 'debug-404-parsed',
                   'canary-as-text:detail', 'canary-as-text:message', 'canary-as-text:error_type', 'canary-as-text:exc_value',
                   'canary-as-text:path', 'canary-as-text:header', 'canary-as-text:query', 'canary-as-text:local',
-                  'status-table-checked', 'instance-code-override', 'href-error-type']
+                  'status-table-checked', 'instance-code-override', 'href-error-type', 'html-structure-checked', 'content-length-compared']
 NSHARDS = 16
 
 STATUS_TABLE = {
@@ -151,7 +151,11 @@ def payload(rng, i):
              '<![CDATA[<vx7q%d>]]>' % i, ']]><vx7q%d/>' % i, 'plain vx7qtext%d' % i,
              # compatibility characters that Unicode normalisation (NFKC/NFKD) or a lossy transcoding turns into markup
              '\uff1cvx7q%d a=1\uff1ex\uff1c/vx7q%d\uff1e' % (i, i), '\ufe64vx7q%d\ufe65 \uff06amp; \uff02 vx7qattr%d=\uff021' % (i, i),
-             '\uff02\uff1e\uff1cvx7q%d\uff1e\uff3c' % i, '\u2039vx7q%d\u203a \u00abvx7q%d\u00bb \uff07' % (i, i)]
+             '\uff02\uff1e\uff1cvx7q%d\uff1e\uff3c' % i,
+             # encoded spellings of markup that a decoding step after escaping would bring to life: percent-encoding,
+             # backslash escapes, numeric references spelled with an escaped ampersand
+             '%%3Cvx7q%d%%20a=1%%3Ex%%3C/vx7q%d%%3E' % (i, i), '%%22%%3E%%3Cvx7q%d%%3E%%26' % i, '%%22%%20vx7qattr%d=%%221' % i,
+             '\\u003cvx7q%d\\u003e \\x3cvx7q%d\\x3e' % (i, i), '%%253Cvx7q%d%%253E +%%3Cvx7q%d+b%%3D1%%3E' % (i, i), '\u2039vx7q%d\u203a \u00abvx7q%d\u00bb \uff07' % (i, i)]
     p = rng.pick(forms)
     if rng.chance(0.12):
         # long fields: anything that shortens, wraps or post-processes a field after escaping shows here
@@ -209,16 +213,24 @@ class Tok(HTMLParser):
     def __init__(self):
         HTMLParser.__init__(self, convert_charrefs=True)
         self.tags, self.attrs, self.text, self.comments = [], [], [], []
+        self.events = []          # ('start'|'end'|'text', tag or text) in document order
 
     def handle_starttag(self, tag, attrs):
         self.tags.append(tag)
         self.attrs.extend(attrs)
+        self.events.append(('start', tag))
 
     def handle_startendtag(self, tag, attrs):
-        self.handle_starttag(tag, attrs)
+        self.tags.append(tag)
+        self.attrs.extend(attrs)
+
+    def handle_endtag(self, tag):
+        self.events.append(('end', tag))
 
     def handle_data(self, d):
         self.text.append(d)
+        if d.strip():
+            self.events.append(('text', d))
 
     def handle_comment(self, c):
         self.comments.append(c)
@@ -229,6 +241,34 @@ def tokenize(body):
     t.feed(body)
     t.close()
     return t
+
+
+STRUCTURAL = ('html', 'head', 'body', 'title', 'h1', 'h2', 'a', 'pre', 'table', 'ul', 'ol', 'div', 'script', 'style')
+
+
+def structure_problem(tok):
+    """one document: a single html element with at most one head and one body, the structural elements properly nested
+    and closed, and nothing after the end of the html element"""
+    stack = []
+    closed_html = False
+    seen = {}
+    for kind, v in tok.events:
+        if closed_html and kind in ('start', 'text'):
+            return 'content after the end of the html element: %s %r' % (kind, v[:60])
+        if kind == 'start' and v in STRUCTURAL:
+            seen[v] = seen.get(v, 0) + 1
+            if v in ('html', 'head', 'body') and seen[v] > 1:
+                return 'a second <%s> element' % v
+            stack.append(v)
+        elif kind == 'end' and v in STRUCTURAL:
+            if not stack or stack[-1] != v:
+                return 'unbalanced </%s> (open: %r)' % (v, stack[-3:])
+            stack.pop()
+            if v == 'html':
+                closed_html = True
+    if stack:
+        return 'unclosed elements %r' % stack[-3:]
+    return None
 
 
 def markup_injection(tok):
@@ -378,6 +418,11 @@ def judge(sh, case, record=True):
     if ex.exc is not None:
         bad('exception-escaped', '%s escaped' % probe.safe_repr(ex.exc)[:300])
         return
+    if ex.length_problem():
+        # the representation is what a client reads: the announced number of bytes of what was sent
+        bad('content-length-differs-from-body', ex.length_problem())
+        return
+    sh.hit('content-length-compared')
     nontrivial = ex.status is not None and (ex.status >= 400 or kind == 'class')
     if record:
         canon = json.loads(re.sub(r'vx7q(attr|text)?\d+', 'vx7q', json.dumps(brief, default=repr)))
@@ -498,6 +543,11 @@ def judge(sh, case, record=True):
     if inj:
         bad('html-markup-injection', 'canary became markup: %r' % inj[:6])
         return
+    sp = structure_problem(tok)
+    if sp:
+        bad('html-not-well-formed', sp)
+        return
+    sh.hit('html-structure-checked')
     text = ''.join(tok.text)
     attr_values = [v for _, v in tok.attrs if v]
     if kind == 'class':
